@@ -110,6 +110,9 @@ def gen_case(rng, tier, i):
         for _ in range(rng.choice([0, 1, 1, 2])):
             # a bound that is not a time: refused like any other illegal command, in every state
             seq.insert(rng.randint(0, len(seq)), rng.choice(["run_up_to:nan", "run_up_to_including:nan"]))
+        if rng.random() < 0.4:
+            # a bound of exactly zero is a time like any other (the replication start of two of the three programs)
+            seq.insert(rng.randint(1, len(seq)), rng.choice(["run_up_to:zero", "run_up_to_including:zero"]))
         return {"fam": "seq", "clock": clock, "seq": seq}
     i -= nrand
     if i < ngate:
@@ -197,6 +200,13 @@ def _run_seq(case, ctx):
                 exp = {"outcome": "refused", "seg": [], "notes": [], "state": pref.state}
                 out = h.cmd(c[:-4], math.nan)
                 ctx.count("not-a-time_bounds_issued")
+            elif c.endswith(":zero"):
+                zero = {"float": 0.0, "int": 0, "duration": [0.0, "s"]}[case["clock"]]
+                pref.mid = zero
+                exp = pref.apply(c[:-5])
+                pref.mid = mid
+                out = h.cmd(c[:-5], zero)
+                ctx.count("zero_bounds_issued")
             else:
                 exp = pref.apply(c)
                 if c in ("run_up_to", "run_up_to_including"):
